@@ -115,6 +115,23 @@ impl IoLoopHandle {
         self.send(IoLoopMessage::Send(buf))
     }
 
+    // Sends a method that carries content; the content header (and body frames, if any)
+    // must follow via send_content_header / send_content_body.
+    pub(super) fn call_nowait_with_content<M: IntoAmqpClass>(&mut self, method: M) -> Result<()> {
+        let buf = self.make_buf(method);
+        self.send(IoLoopMessage::SendContentPart(buf))
+    }
+
+    // `more` says whether further frames of the same content follow this one; the I/O
+    // thread keeps its own frames for this channel back until the content is complete.
+    fn send_content_frame(&mut self, buf: OutputBuffer, more: bool) -> Result<()> {
+        if more {
+            self.send(IoLoopMessage::SendContentPart(buf))
+        } else {
+            self.send(IoLoopMessage::Send(buf))
+        }
+    }
+
     pub(super) fn send_content_header(
         &mut self,
         class_id: u16,
@@ -125,14 +142,14 @@ impl IoLoopHandle {
         self.buf
             .push_content_header(self.channel_id, class_id, len, properties);
         let buf = self.buf.drain_into_new_buf();
-        self.send(IoLoopMessage::Send(buf))
+        self.send_content_frame(buf, len > 0)
     }
 
-    pub(super) fn send_content_body(&mut self, content: &[u8]) -> Result<()> {
+    pub(super) fn send_content_body(&mut self, content: &[u8], more: bool) -> Result<()> {
         debug_assert!(self.buf.is_empty());
         self.buf.push_content_body(self.channel_id, content);
         let buf = self.buf.drain_into_new_buf();
-        self.send(IoLoopMessage::Send(buf))
+        self.send_content_frame(buf, more)
     }
 
     fn send(&mut self, message: IoLoopMessage) -> Result<()> {
